@@ -957,6 +957,11 @@ func (l *lexer) scanToken() int {
 Scan:
 	tok := l.scanRawToken()
 	if tok == WORD && blank && l.subst() {
+		if a := l.aliases[len(l.aliases)-1]; a.value.Len() == 1 {
+			// an empty value: the word after it is examined only if
+			// this value ends in a blank
+			blank = a.blank
+		}
 		goto Scan
 	}
 	return tok
